@@ -385,6 +385,14 @@ class ClassUtils:
             elif total > 1:
                 cls.rename_attributes_by_index(target.attrs, items)
 
+        # The preference based names can collide with the rest of the attrs
+        grouped = collections.group_by(
+            target.attrs, key=lambda x: x.slug or DEFAULT_ATTR_NAME
+        )
+        for items in grouped.values():
+            if len(items) > 1:
+                cls.rename_attributes_by_index(target.attrs, items)
+
     @classmethod
     def rename_attribute_by_preference(cls, a: Attr, b: Attr):
         """Decide and rename one of the two given attributes.
